@@ -11,6 +11,9 @@
      BindFails      the BindRequest creation / the binder fails: the pod is pending again
      BinderBinds    the binder completes a bind: the pod runs
      PodGone        a terminating pod disappears (closed system: it is recreated pending)
+     SchedNominate  nominate (pipeline) a pending pod onto capacity that is idle or held by terminating
+                    pods only: the pod holds nothing, nothing is handed out
+     NewCycle       nominations are not persisted: at the next cycle every nominated pod is pending
    and checks that these rules imply the capacity properties (C01, C02) in every reachable state.
    Its initial states (all small clusters within the constants) are also exported as scenarios
    and run on the real scheduler (spec -> code direction), where ClusterTrace judges the real
@@ -39,7 +42,7 @@ Req(k) == CASE k = "cpu" -> [cpu |-> 1000, gpu |-> 0, frac |-> 0,  devs |-> 0]
 
 VARIABLES gpus,    \* gpus[n]
           kind,    \* kind[p]
-          st,      \* st[p] in pending / binding / running / terminating
+          st,      \* st[p] in pending / nominated / binding / running / terminating
           node,    \* node[p] (0 = none)
           grp,     \* grp[p] : set of group ids
           steps
@@ -55,7 +58,7 @@ GroupMem(n, g) == Sum({p \in OnNode(n) : g \in grp[p]}, MemOf)
 DevicesUsed(n) == WholeUsed(n) + Cardinality(GroupsOn(n))
 AllGroups == UNION {grp[p] : p \in Pods}
 
-TypeOK == /\ \A p \in Pods : st[p] \in {"pending", "binding", "running", "terminating"}
+TypeOK == /\ \A p \in Pods : st[p] \in {"pending", "nominated", "binding", "running", "terminating"}
           /\ \A p \in Pods : (st[p] = "pending") <=> (node[p] = 0)
 
 \* initial clusters: some pods already running, placed within capacity (checked by InitOK)
@@ -75,16 +78,49 @@ Init ==
   /\ InitOK
 
 \* ---- the scheduler's rules ----
+\* what the scheduler treats as taken when it binds: the pods that hold the node and the pods nominated onto
+\* it in this cycle (their capacity is reserved until NewCycle)
+Taken(n) == OnNode(n) \cup {q \in Pods : node[q] = n /\ st[q] = "nominated"}
+TakenGroups(n) == UNION {grp[q] : q \in Taken(n)}
+TakenGroupMem(n, g) == Sum({q \in Taken(n) : g \in grp[q]}, MemOf)
 FitsIdle(p, n, gs) ==
   LET r == Req(kind[p])
-      newG == gs \ GroupsOn(n)
-  IN /\ CpuUsed(n) + r.cpu <= CpuCap
+      newG == gs \ TakenGroups(n)
+      devs == Sum(Taken(n), LAMBDA q : Req(kind[q]).gpu) + Cardinality(TakenGroups(n))
+  IN /\ Sum(Taken(n), LAMBDA q : Req(kind[q]).cpu) + r.cpu <= CpuCap
      /\ IF r.devs = 0
-        THEN gs = {} /\ DevicesUsed(n) + r.gpu <= gpus[n]
+        THEN gs = {} /\ devs + r.gpu <= gpus[n]
         ELSE /\ Cardinality(gs) = r.devs
-             /\ DevicesUsed(n) + Cardinality(newG) <= gpus[n]
-             /\ \A g \in gs : GroupMem(n, g) + MemOf(p) <= GpuMem
+             /\ devs + Cardinality(newG) <= gpus[n]
+             /\ \A g \in gs : TakenGroupMem(n, g) + MemOf(p) <= GpuMem
              /\ newG \cap AllGroups = {}        \* a new group gets a fresh id
+
+\* capacity for a nomination: everything not held by running / binding pods (terminating pods will leave)
+Staying(n) == {p \in Pods : node[p] = n /\ st[p] \in {"binding", "running"}}
+NomGroups(n) == UNION {grp[p] : p \in Staying(n)}
+NomGroupMem(n, g) == Sum({p \in Staying(n) : g \in grp[p]}, MemOf)
+StayOrNom(n) == Staying(n) \cup {q \in Pods : node[q] = n /\ st[q] = "nominated"}
+SNGroups(n) == UNION {grp[q] : q \in StayOrNom(n)}
+SNGroupMem(n, g) == Sum({q \in StayOrNom(n) : g \in grp[q]}, MemOf)
+FitsReleasing(p, n, gs) ==
+  LET r == Req(kind[p])
+      newG == gs \ SNGroups(n)
+      devs == Sum(StayOrNom(n), LAMBDA q : Req(kind[q]).gpu) + Cardinality(SNGroups(n))
+  IN /\ Sum(StayOrNom(n), LAMBDA q : Req(kind[q]).cpu) + r.cpu <= CpuCap
+     /\ IF r.devs = 0 THEN gs = {} /\ devs + r.gpu <= gpus[n]
+        ELSE /\ Cardinality(gs) = r.devs /\ devs + Cardinality(newG) <= gpus[n]
+             /\ \A g \in gs : SNGroupMem(n, g) + MemOf(p) <= GpuMem
+             /\ newG \cap AllGroups = {}
+SchedNominate(p, n, gs) ==
+  /\ st[p] = "pending" /\ FitsReleasing(p, n, gs) /\ ~FitsIdle(p, n, gs)   \* what fits idle capacity is bound
+  /\ st' = [st EXCEPT ![p] = "nominated"] /\ node' = [node EXCEPT ![p] = n] /\ grp' = [grp EXCEPT ![p] = gs]
+  /\ steps' = steps + 1 /\ UNCHANGED <<gpus, kind>>
+NewCycle ==
+  /\ \E p \in Pods : st[p] = "nominated"
+  /\ st' = [p \in Pods |-> IF st[p] = "nominated" THEN "pending" ELSE st[p]]
+  /\ node' = [p \in Pods |-> IF st[p] = "nominated" THEN 0 ELSE node[p]]
+  /\ grp' = [p \in Pods |-> IF st[p] = "nominated" THEN {} ELSE grp[p]]
+  /\ steps' = steps + 1 /\ UNCHANGED <<gpus, kind>>
 
 SchedBind(p, n, gs) ==
   /\ st[p] = "pending" /\ FitsIdle(p, n, gs)
@@ -113,9 +149,10 @@ PodGone(p) ==
 
 Next ==
   /\ steps < MaxSteps
-  /\ \E p \in Pods :
-       \/ \E n \in Nodes : \E gs \in SUBSET GroupIds : Cardinality(gs) <= 2 /\ SchedBind(p, n, gs)
-       \/ SchedEvict(p) \/ BindFails(p) \/ BinderBinds(p) \/ PodGone(p)
+  /\ \/ \E p \in Pods :
+          \/ \E n \in Nodes : \E gs \in SUBSET GroupIds : Cardinality(gs) <= 2 /\ (SchedBind(p, n, gs) \/ SchedNominate(p, n, gs))
+          \/ SchedEvict(p) \/ BindFails(p) \/ BinderBinds(p) \/ PodGone(p)
+     \/ NewCycle
 Spec == Init /\ [][Next]_vars
 
 \* ---- the properties, design level ----
@@ -124,6 +161,12 @@ C01_Gpu == \A n \in Nodes : DevicesUsed(n) <= gpus[n]
 C02_GroupFits == \A n \in Nodes : \A g \in GroupsOn(n) : GroupMem(n, g) <= GpuMem
 C02_GroupOnOneNode == \A p, q \in Pods : (grp[p] \cap grp[q] # {} /\ node[p] # 0 /\ node[q] # 0) => node[p] = node[q]
 C02_Distinct == \A p \in Pods : st[p] # "pending" => Cardinality(grp[p]) = Req(kind[p]).devs
+\* a nomination never uses capacity that a running or binding pod holds (it may wait for terminating pods)
+C01_NominationWaitsOnlyForLeavers ==
+  \A n \in Nodes :
+     /\ Sum(StayOrNom(n), LAMBDA q : Req(kind[q]).cpu) <= CpuCap
+     /\ Sum(StayOrNom(n), LAMBDA q : Req(kind[q]).gpu) + Cardinality(SNGroups(n)) <= gpus[n]
+     /\ \A g \in SNGroups(n) : SNGroupMem(n, g) <= GpuMem
 
 \* ---- export of the initial states as scenarios for the real scheduler ----
 KindName(p) == kind[p]
